@@ -1,14 +1,16 @@
-import Rscp.Props.C08
+import Rscp.Props.C06
+import Rscp.Tie.Crypt
 import Rscp.Tie.Client
 
-#print axioms Rscp.Props.C08.clean_init
-#print axioms Rscp.Props.C08.clean_step
-#print axioms Rscp.Props.C08.clean_reachable
-#print axioms Rscp.Props.C08.pairing
-#print axioms Rscp.Props.C08.sent_once_in_order
-#print axioms Rscp.Props.C08.failure_disconnects
-#print axioms Rscp.Props.C08.disconnect_resets
-#print axioms Rscp.Props.C08.recovery
+#print axioms Rscp.Props.C06.key_padding
+#print axioms Rscp.Props.C06.key_long
+#print axioms Rscp.Props.C06.key_is_a_block
+#print axioms Rscp.Props.C06.iv_is_ff
+#print axioms Rscp.Props.C06.peer_decrypts_all
+#print axioms Rscp.Props.C06.peer_decrypts_all_from_new
+#print axioms Rscp.Props.C06.cbc_chunking
+#print axioms Rscp.Tie.Crypt.shape_rscp_createAESKey
+#print axioms Rscp.Tie.Crypt.shape_rscp_newIV
 #print axioms Rscp.Tie.Client.shape_rscp_NewClient
 #print axioms Rscp.Tie.Client.shape_rscp_Client_resetCipher
 #print axioms Rscp.Tie.Client.shape_rscp_Client_send
